@@ -8,8 +8,8 @@ EXTENDS DeserOps
 
 CONSTANTS MaxLen, WithBig      \* WithBig: explore the huge-value units too (FALSE for the random walks)
 
-VARIABLES st, ended, pre, inp, hist
-vars == <<st, ended, pre, inp, hist>>
+VARIABLES st, ended, pre, inp, hist, tab
+vars == <<st, ended, pre, inp, hist, tab>>
 
 Profs == {"ld", "hq", "none"}
 \* slice payload variants (concretised by the harness writer; all must parse and round-trip)
@@ -48,6 +48,15 @@ PlainUnits == {[k |-> "SH", ver |-> 3, idx |-> "known", bvf |-> "custom", align 
                [k |-> "PIC", prof |-> "hq", sl |-> "exact", align |-> "zero"],
                [k |-> "FRAG0", prof |-> "ld", pcx |-> "std"], [k |-> "FRAG0", prof |-> "hq", pcx |-> "std"],
                [k |-> "EOS", offs |-> "zero", prefix |-> "ok"]}
+(* the code (bit string) and the value (limbs) of every class: handed to the driver once, as the    *)
+(* variable tab of the initial state (it is not part of the view and is emptied by the first step); *)
+(* the driver joins it to the history steps by class                                                *)
+BigKSeq == <<31, 47, 48, 53, 63, 64, 100>>
+BigPatSeq == <<"zeros", "ones", "alt", "ones0">>
+BigTab == [i \in 1..Len(BigKSeq) |-> [j \in 1..Len(BigPatSeq) |->
+             LET c == [k |-> BigKSeq[i], pat |-> BigPatSeq[j]] IN
+             [k |-> c.k, pat |-> c.pat, code |-> BigCode(c), val |-> BigValue(c)]]]
+ASSUME BigTabComplete == BigClasses = {[k |-> BigKSeq[i], pat |-> BigPatSeq[j]] : i \in 1..Len(BigKSeq), j \in 1..Len(BigPatSeq)}
 Ends == {"clean", "trail", "cut"}
 
 (* predicted outcome if the byte string ends cleanly here / after one more plain EOS unit *)
@@ -55,7 +64,7 @@ PlainEOS == [k |-> "EOS", offs |-> "zero", prefix |-> "ok"]
 FinOut(s) == IF Live(s) THEN Finish(s, "clean").out ELSE s.out
 CloseWith(s) == IF Live(s) THEN Step(s, PlainEOS) ELSE s
 
-Init == st = Start /\ ended = FALSE /\ pre = Start /\ inp = [k |-> "INIT"] /\ hist = <<>>
+Init == st = Start /\ ended = FALSE /\ pre = Start /\ inp = [k |-> "INIT"] /\ hist = <<>> /\ tab = BigTab
 
 Feed(u) == /\ ~ended /\ Live(st) /\ Len(hist) < MaxLen
            /\ (HasBig(u) => inp \in PlainUnits \cup {[k |-> "INIT"]})
@@ -63,14 +72,14 @@ Feed(u) == /\ ~ended /\ Live(st) /\ Len(hist) < MaxLen
            /\ st' = Step(st, u) /\ ended' = FALSE
            /\ pre' = st /\ inp' = u
            /\ hist' = Append(hist, [u |-> u, out |-> st'.out, dev |-> DeviationNegativeLength(u),
-                                     fin |-> FinOut(st'), closed |-> FinOut(CloseWith(st')),
-                                     code |-> IF HasBig(u) THEN BigCode(u.big) ELSE <<>>,
-                                     val |-> IF HasBig(u) THEN BigValue(u.big) ELSE <<>>])
+                                     fin |-> FinOut(st'), closed |-> FinOut(CloseWith(st'))])
+           /\ tab' = <<>>
 End(how) == /\ ~ended /\ Len(hist) >= 1
             /\ st' = IF Live(st) THEN Finish(st, how) ELSE st
             /\ ended' = TRUE /\ pre' = st /\ inp' = [k |-> "END", how |-> how]
             /\ hist' = Append(hist, [u |-> inp', out |-> st'.out, dev |-> FALSE,
-                                      fin |-> st'.out, closed |-> st'.out, code |-> <<>>, val |-> <<>>])
+                                      fin |-> st'.out, closed |-> st'.out])
+            /\ tab' = <<>>
 Next == (\E u \in (IF WithBig THEN Units \cup BigUnits ELSE Units) : Feed(u)) \/ (\E h \in Ends : End(h))
 Spec == Init /\ [][Next]_vars
 View == <<pre, inp, st, ended>>
